@@ -1,11 +1,12 @@
 CONSTANTS
   Pats = {"/a", "/*"}
-  HKinds = {"plain", "ownO"}
+  HKinds = {"ownO"}
   HostPats = {"*.test"}
-  CorsCat <- Cat2
+  CorsCat <- Cat1
   MaxCalls = 1000000
   MaxRoutes = 2
   MaxHosts = 1
+  MaxCorsCalls = 1000000
   FullApi = TRUE
   ReqMethods = {"GET", "OPTIONS"}
   ReqHosts = {"", "one.test"}
